@@ -29,6 +29,7 @@ def run(model, rep, tier):
     r6_summary_and_cleanup(ctx, rep)
     r7_run_continues(ctx, rep)
     r8_optional_groups(ctx, rep)
+    r10_absent_value_beliefs(ctx, rep)
     rep.rule('C04.R9', 'no callback stops the run on its own: without --stop-on-error no result '
              'event sets shouldStop (every other selected test still runs)')
     tsrules.no_stop_without_flag(ctx, rep, 'C04.R9')
@@ -273,6 +274,12 @@ def r5_formatter_interface(ctx, rep):
                       func=fi.qualname, where=ctx.where(fi, n))
     rep.floor(R, sites, 50, 'formatter use sites')
     rep.floor(R, len(methods), 26, 'distinct formatter methods')
+    wrapper_forwards(ctx, rep, R)
+
+
+def wrapper_forwards(ctx, rep, R):
+    m = ctx.model
+    wrapper = m.cls('formatter.XMLOutputFormattingWrapper')
     # the wrapper forwards every parameter of what it overrides
     base = m.cls('formatter.OutputFormatter')
     for name, wf in sorted(wrapper.methods.items()):
@@ -283,18 +290,28 @@ def r5_formatter_interface(ctx, rep):
         bparams = [a.arg for a in bf.node.args.args][1:]
         fw = [c for c in own_calls(wf.node) if isinstance(c.func, ast.Attribute) and
               c.func.attr == name and (dotted(c.func.value) or '').endswith('delegate')]
-        full = False
+        from .common import guard_literals
+        full = bool(fw)
+        partial_why = ''
         for c in fw:
             passed = {dotted(a) for a in c.args} | {dotted(k.value) for k in c.keywords}
-            if set(wparams) <= passed:
-                full = True
+            missing = [p_ for p_ in wparams if p_ not in passed]
+            if missing:
+                # a parameter may be left out only where it is known to be None (the delegate's
+                # default): the guard of this call must say so for each omitted parameter
+                lits = [(norm(e), pos) for e, pos in guard_literals(ctx, wf, c)]
+                for p_ in missing:
+                    if ('%s is None' % p_, True) not in lits:
+                        full = False
+                        partial_why = ('%s is not passed on by %s although it is not known to be None '
+                                       'there (guard: %s)' % (p_, norm(c)[:50], lits))
         g = ctx.cfg(wf)
         fwn = nodes_calling(g, lambda c: c in fw)
         every, _ = g.every_path_passes([g.entry], [g.exit], set(fwn), include_start=True)
         rep.check(wparams == bparams and full and every and bool(fw), R,
                   'XML wrapper %s forwards to the delegate with all parameters on every path' % name,
-                  'the wrapper override %s%s does not forward everything to the wrapped formatter'
-                  % (name, tuple(wparams)), key='wrapper:' + name, func=wf.qualname,
+                  'the wrapper override %s%s does not forward everything to the wrapped formatter: %s'
+                  % (name, tuple(wparams), partial_why), key='wrapper:' + name, func=wf.qualname,
                   where=ctx.where(wf, wf.node))
 
 
@@ -461,3 +478,63 @@ def r8_optional_groups(ctx, rep, R='C04.R8'):
 
 def is_name_(e, name):
     return isinstance(e, ast.Name) and e.id == name
+
+
+def r10_absent_value_beliefs(ctx, rep, R='C04.R10'):
+    rep.rule(R, 'caller and callee agree on what "no value" means (contradiction rule): where a call '
+             'site passes a falsy non-None constant (False, 0, "", ()) for a parameter whose default '
+             'is None -- i.e. the caller means "absent" -- the callee must treat the parameter by '
+             'truthiness; if it only tests "is None", the constant flows on as a real value (e.g. a '
+             'bool used as a traceback while a layer failure is being reported)')
+    m = ctx.model
+    n = 0
+    for fi in m.all_functions():
+        for c in own_calls(fi.node):
+            r = ctx.cg.resolve_call(c, fi)
+            if not isinstance(r, list):
+                continue
+            for callee in r:
+                a = callee.node.args
+                names = [x.arg for x in a.posonlyargs + a.args]
+                offs = 1 if names and names[0] in ('self', 'cls') and callee.cls is not None and \
+                    not (isinstance(c.func, ast.Attribute) and dotted(c.func.value) in
+                         (callee.cls.name,)) else 0
+                defaults = dict(zip(names[len(names) - len(a.defaults):], a.defaults))
+                bound = list(zip(names[offs:], c.args)) + [(k.arg, k.value) for k in c.keywords if k.arg]
+                for pname, val in bound:
+                    d = defaults.get(pname)
+                    if not (isinstance(d, ast.Constant) and d.value is None):
+                        continue
+                    falsy = (isinstance(val, ast.Constant) and val.value is not None and not val.value
+                             and not isinstance(val.value, (int,)) or
+                             (isinstance(val, ast.Constant) and val.value is False) or
+                             (isinstance(val, (ast.Tuple, ast.List, ast.Dict)) and
+                              not getattr(val, 'elts', getattr(val, 'keys', None))))
+                    if not falsy:
+                        continue
+                    n += 1
+                    none_tests, truthy = 0, 0
+                    for x in ast.walk(callee.node):
+                        if isinstance(x, ast.Compare) and isinstance(x.left, ast.Name) and \
+                                x.left.id == pname and isinstance(x.ops[0], (ast.Is, ast.IsNot)) and \
+                                isinstance(x.comparators[0], ast.Constant) and \
+                                x.comparators[0].value is None:
+                            none_tests += 1
+                        if isinstance(x, ast.BoolOp) and any(isinstance(v, ast.Name) and v.id == pname
+                                                             for v in x.values[:-1]):
+                            truthy += 1
+                        if isinstance(x, (ast.If, ast.While, ast.IfExp)):
+                            t = x.test
+                            while isinstance(t, ast.UnaryOp) and isinstance(t.op, ast.Not):
+                                t = t.operand
+                            if isinstance(t, ast.Name) and t.id == pname:
+                                truthy += 1
+                    rep.check(not (none_tests and not truthy), R,
+                              '%s passes %s for %s(%s=None): callee treats it by truthiness'
+                              % (fi.qualname, norm(val), callee.qualname, pname),
+                              '%s passes the falsy constant %s for parameter %r (default None) of %s, '
+                              'but the callee only tests "%s is None": %s is then used as a real value'
+                              % (fi.qualname, norm(val), pname, callee.qualname, pname, norm(val)),
+                              key='absent:%s->%s:%s' % (fi.qualname, callee.qualname, pname),
+                              func=callee.qualname, where=ctx.where(fi, c))
+    rep.floor(R, n, 1, 'falsy-constant-for-None-default call sites')
